@@ -645,6 +645,26 @@ fn c07_insert(rng: &mut Rng, out: &mut Out) {
             Err(e) => report(out, "C07 lookup / scale / multiply on the explicit transpose panicked", ctx.clone(), e, "values".into()) }
     }
 }
+fn c07_raw(rng: &mut Rng, out: &mut Out) {
+    for _ in 0..80 { case();
+        let (r, c) = (1 + rng.below(up(5, 8) as u64) as usize, 1 + rng.below(up(5, 8) as u64) as usize);
+        let mut d: M = vec![vec![Q::int(0); c]; r];
+        let (mut val, mut ri, mut cs) = (vec![], vec![], vec![0usize]);
+        for j in 0..c { let mut rows: Vec<usize> = (0..r).filter(|_| rng.below(2) == 0).collect();
+            for k in (1..rows.len()).rev() { let t = rng.below(k as u64 + 1) as usize; rows.swap(k, t); }
+            for i in rows { let v = if rng.below(3) == 0 { Q::int(2) } else { rng.q_nz() }; d[i][j] = v; val.push(v); ri.push(i); }
+            cs.push(val.len()); }
+        let mut s = match quiet(|| Sparse::<Q>::from_vecs(r, c, val.clone(), ri.clone(), cs.clone())) { Ok(s) => s, Err(_) => continue };
+        let mut ctx = format!("from_vecs({}, {}, val={}, row_index={:?}, col_start={:?})", r, c, qs(&val), ri, cs);
+        for _ in 0..2 { if val.is_empty() { break; } let k = rng.below(val.len() as u64) as usize; let (i, j) = (ri[k], (0..c).find(|&j| cs[j] <= k && k < cs[j + 1]).unwrap()); let v = rng.q_nz();
+            if quiet(std::panic::AssertUnwindSafe(|| s.insert(i, j, v))).is_err() { report(out, "C07 insert panicked on an in-range position", ctx.clone(), format!("insert({},{},{:?})", i, j, v), "stored".into()); break; }
+            d[i][j] = v; ctx = format!("{}; insert({},{},{})", ctx, i, j, v.n); }
+        let x: Vec<Q> = (0..c).map(|_| rng.q()).collect(); let y: Vec<Q> = (0..r).map(|_| rng.q()).collect();
+        let dt: M = (0..c).map(|j| (0..r).map(|i| d[i][j]).collect()).collect();
+        match quiet(|| s.multiply(&Vector::create(x.clone()))) { Ok(p) => if vq(&p) != matvec(&d, &x) { report(out, "C07 raw arrays (rows of a column in any order), overwritten entries: A*x == dense A*x", format!("{} x={}", ctx, qs(&x)), qs(&vq(&p)), qs(&matvec(&d, &x))); }, Err(e) => report(out, "C07 multiply panicked", ctx.clone(), e, "A*x".into()) }
+        match quiet(|| s.transpose_multiply(&Vector::create(y.clone()))) { Ok(p) => if vq(&p) != matvec(&dt, &y) { report(out, "C07 raw arrays (rows of a column in any order), overwritten entries: A^T*y == dense A^T*y", format!("{} y={}", ctx, qs(&y)), qs(&vq(&p)), qs(&matvec(&dt, &y))); }, Err(e) => report(out, "C07 transpose_multiply panicked", ctx.clone(), e, "A^T*y".into()) }
+    }
+}
 fn c07_sizes(_rng: &mut Rng, out: &mut Out) {
     for (r, c) in [(2usize, 3usize), (3, 2), (1, 4), (4, 1), (3, 3)] { case();
         let mut t = vec![(0usize, 0usize, Q::int(1)), (r - 1, c - 1, Q::int(2))];
@@ -839,6 +859,20 @@ fn c09(rng: &mut Rng, out: &mut Out) {
             if !ok { report(out, "C09 converges on ill-conditioned SPD systems (1-D Laplacian) within 2n+20 sweeps", format!("tridiag(-1,2,-1) n={} tol={:e} solver={}", n, tol, name), format!("{:?} residual={:e}", r, resid(&d, &x, &b)), "Ok, residual of rounding size".into()); }
         }
     } }
+    // a zero right-hand side with a non-zero guess (SPD, fixed suite): the solution is x = 0 and every solver gets there
+    { let mut fw = Rng(0x0F1E2D3C4B5A6978);
+      for it in 0..24 { case();
+        let n = 2 + fw.below(9) as usize;
+        let mut d = vec![vec![0.0f64; n]; n];
+        for i in 0..n { for j in 0..i { if fw.below(3) == 0 { d[i][j] = fw.f(); d[j][i] = d[i][j]; } } d[i][i] = 30.0 + i as f64; }
+        let g: Vec<f64> = (0..n).map(|_| { let v = fw.f(); (if v == 0.0 { 1.5 } else { v }) * if it % 2 == 0 { 1.0 } else { 40.0 } }).collect();
+        let s = sparse_f(&d); let zero = vec![0.0; n]; let ctx = format!("A={:?} b=0 x0={:?}", d, g);
+        for (name, r, x) in solvers(&s, &Vector::create(zero.clone()), &Vector::create(g.clone()), 10 * n + 20, 1e-8) { case();
+            let ax = (0..n).map(|i| (0..n).map(|j| d[i][j] * x[j]).sum::<f64>().abs()).fold(0.0f64, nmax);
+            let ax0 = (0..n).map(|i| (0..n).map(|j| d[i][j] * g[j]).sum::<f64>().abs()).fold(0.0f64, nmax);
+            if !(r.is_ok() && ax <= 1e-5 * (1.0 + ax0)) { report(out, "C09 converges on SPD systems with a zero right-hand side from a non-zero guess", format!("{} solver={}", ctx, name), format!("{:?} |A x|={:e}", r, ax), "Ok, A x ~ 0".into()); }
+        }
+      } }
     // the same on a fixed suite of SPD systems started from a NON-ZERO guess (both error measures of BiCG)
     let mut fy = Rng(0x1234567DEECE66D5);
     for it in 0..60 { case();
@@ -1097,6 +1131,11 @@ fn c13(rng: &mut Rng, out: &mut Out) {
             let d = z.clone() / w.clone(); if !same(&(d.clone() * w.clone()), &z) { report(out, "C13 (z / w) * w == z", ctx.clone(), format!("{:?}", d), "field quotient".into()); }
             let mut da = z.clone(); da /= w.clone(); if !same(&da, &d) { report(out, "C13 /= equals /", ctx.clone(), format!("{:?}", da), format!("{:?}", d)); }
         }
+        { let mut t = z.clone(); t *= z.clone(); let sq = Complex::new(z.real * z.real - z.imag * z.imag, z.real * z.imag + z.imag * z.real);
+          if !same(&t, &sq) || !same(&(z.clone() * z.clone()), &sq) { report(out, "C13 z *= z and z * z are the square of z (coinciding operands)", ctx.clone(), format!("{:?}", t), format!("{:?}", sq)); }
+          let mut u = z.clone(); u += z.clone(); let mut v2 = z.clone(); v2 -= z.clone();
+          if !same(&u, &Complex::new(z.real + z.real, z.imag + z.imag)) || !v2.real.is_zero() || !v2.imag.is_zero() { report(out, "C13 z += z doubles and z -= z gives zero (coinciding operands)", ctx.clone(), format!("{:?} / {:?}", u, v2), "2z / 0".into()); }
+          if !(z.real.is_zero() && z.imag.is_zero()) { let mut q = z.clone(); q /= z.clone(); if !same(&q, &Complex::new(Q::int(1), Q::int(0))) { report(out, "C13 z /= z gives one (coinciding operands)", ctx.clone(), format!("{:?}", q), "1".into()); } } }
         let mut a = z.clone(); a += w.clone(); if !same(&a, &(z.clone() + w.clone())) { report(out, "C13 += equals +", ctx.clone(), format!("{:?}", a), "sum".into()); }
         let mut s = z.clone(); s -= w.clone(); if !same(&s, &(z.clone() - w.clone())) { report(out, "C13 -= equals -", ctx.clone(), format!("{:?}", s), "difference".into()); }
         let (lt, eq, gt) = (z < w, z == w, z > w);
@@ -1151,6 +1190,10 @@ fn c14(_rng: &mut Rng, out: &mut Out) {
           let m = (z.real * z.real + z.imag * z.imag).sqrt();
           let t = <Cmplx as Signed>::abs(&z);
           if !((z.abs() - m).abs() <= 1e-14 * m) || !((t.real - m).abs() <= 1e-14 * m && t.imag == 0.0) { report(out, "C14 |z| through the inherent method and through the Signed trait method is the modulus (as x + 0i)", ctx.clone(), format!("abs()={} Signed::abs=({}, {})", z.abs(), t.real, t.imag), format!("{}", m)); }
+          if (z - one).abs() > 1e-3 { let l = z.log(z); if !cl(l, one) { report(out, "C14 the logarithm of a number in its own base is one", ctx.clone(), format!("({}, {})", l.real, l.imag), "(1, 0)".into()); } }
+          if z.imag == 0.0 { let x = z.real; let a = z.acosh();      // principal branch on the real axis: Im acosh in [0, pi]
+              let e = if x >= 1.0 { Cmplx::new((x + (x * x - 1.0).sqrt()).ln(), 0.0) } else if x <= -1.0 { Cmplx::new((-x + (x * x - 1.0).sqrt()).ln(), std::f64::consts::PI) } else { Cmplx::new(0.0, x.acos()) };
+              if !((a.real - e.real).abs() <= 1e-9 && (a.imag - e.imag).abs() <= 1e-9) { report(out, "C14 acosh on the real axis takes the principal value (imaginary part in [0, pi])", ctx.clone(), format!("({}, {})", a.real, a.imag), format!("({}, {})", e.real, e.imag)); } }
           let back = Cmplx::polar(z.abs(), z.arg());
           if !cl(back, z) { report(out, "C14 polar(|z|, arg z) == z in every quadrant and on every axis", ctx.clone(), format!("({}, {})", back.real, back.imag), format!("({}, {})", z.real, z.imag)); } }
         { let inv = one / z;
@@ -1434,6 +1477,7 @@ fn c18(rng: &mut Rng, out: &mut Out) {
         // every dyadic step 2^-4 .. 2^-26 keeps the quotients exact; rows of mixed scale (a large offset next to small coefficients)
         let delta = [0.0625, 2.0f64.powi(-10), 2.0f64.powi(-20), 2.0f64.powi(-24), 2.0f64.powi(-26), 0.03125][rng.below(6) as usize];
         let (mut a, mut c) = (a, c);
+        if n >= 2 && rng.below(4) == 0 { let j = rng.below(n as u64 - 1) as usize; for i in 0..m { let v = if a[i][j] == 0.0 { 1.5 } else { a[i][j] }; a[i][j] = v; a[i][j + 1] = v; } }      // two equal adjacent columns
         if rng.below(3) == 0 && m >= 2 { let i = rng.below(m as u64) as usize; for j in 0..n { a[i][j] *= 2.0f64.powi(-9); } let i2 = (i + 1 + rng.below(m as u64 - 1) as usize) % m; c[i2] = 1048576.0; }      // the large offset sits in ANOTHER component
         let calls: RefCell<Vec<Vec<f64>>> = RefCell::new(vec![]);
         let f = |x: Vec64| { calls.borrow_mut().push((0..n).map(|i| x[i]).collect()); Vec64::create((0..m).map(|i| c[i] + (0..n).map(|j| a[i][j] * x[j]).sum::<f64>()).collect()) };
@@ -1632,6 +1676,22 @@ fn c20(rng: &mut Rng, out: &mut Out) {
         must_panic(out, format!("Mesh2D({}x{}).set_nodes_vars({}, 0, ..)", nx, ny, nx), quiet(std::panic::AssertUnwindSafe(|| m2.set_nodes_vars(nx, 0, Vector::create(vec![0.0, 0.0])))));
         must_panic(out, format!("Mesh2D({}x{}).set_nodes_vars(0, {}, ..)", nx, ny, ny), quiet(std::panic::AssertUnwindSafe(|| m2.set_nodes_vars(0, ny, Vector::create(vec![0.0, 0.0])))));
     } }
+    for r in 0..4usize { for c in 1..4usize { case();
+        let m0: M = (0..r).map(|i| (0..c).map(|j| Q::int((1 + i * c + j) as i64)).collect()).collect();
+        let mk = || { let mut t = Matrix::<Q>::new(r, c, Q::int(0)); for i in 0..r { for j in 0..c { t[(i, j)] = m0[i][j]; } } t };
+        // coinciding out-of-range arguments are still rejected
+        must_panic(out, format!("Matrix({}x{}).swap_rows({}, {})", r, c, r, r), quiet(std::panic::AssertUnwindSafe(|| { let mut t = mk(); t.swap_rows(r, r); })));
+        must_panic(out, format!("Matrix({}x{}).set_col({}, Vector({}))", r, c, c + 3, r), quiet(std::panic::AssertUnwindSafe(|| { let mut t = mk(); t.set_col(c + 3, Vector::<Q>::new(r, Q::int(9))); })));
+        must_panic(out, format!("Matrix({}x{}).set_row({}, Vector({}))", r, c, r + 2, c), quiet(std::panic::AssertUnwindSafe(|| { let mut t = mk(); t.set_row(r + 2, Vector::<Q>::new(c, Q::int(9))); })));
+        // a rejected call has not written anything
+        let mut t = mk();
+        let _ = quiet(std::panic::AssertUnwindSafe(|| t.set_col(c, Vector::<Q>::new(r, Q::int(9)))));
+        let _ = quiet(std::panic::AssertUnwindSafe(|| t.set_row(r, Vector::<Q>::new(c, Q::int(9)))));
+        let _ = quiet(std::panic::AssertUnwindSafe(|| t.set_col(0, Vector::<Q>::new(r + 1, Q::int(9)))));
+        if t.rows() != r || t.cols() != c || (r > 0 && from_matrix(&t) != m0) { report(out, "C20 a rejected call leaves its operand unchanged", format!("Matrix({}x{}) after rejected set_col / set_row calls", r, c), mq(&from_matrix(&t)), mq(&m0)); }
+        if r > 0 { let mut t2 = mk(); t2.swap_rows(r - 1, r - 1); if from_matrix(&t2) != m0 { report(out, "C20 an accepted call with coinciding arguments (swap_rows(i, i)) leaves the matrix as it is", format!("Matrix({}x{}).swap_rows({}, {})", r, c, r - 1, r - 1), mq(&from_matrix(&t2)), mq(&m0)); }
+            let mut t3 = mk(); t3.swap_elem(r - 1, c - 1, r - 1, c - 1); if from_matrix(&t3) != m0 { report(out, "C20 an accepted call with coinciding arguments (swap_elem of a cell with itself) leaves the matrix as it is", format!("Matrix({}x{})", r, c), mq(&from_matrix(&t3)), mq(&m0)); } }
+    } }
     // products with the largest square operand (6 x 6): non-conformable partners of every shape, borrowing and consuming
     { let sq = Matrix::<Q>::new(6, 6, Q::int(1));
       for a in 1..7usize { for b in 1..7usize { case();
@@ -1703,7 +1763,7 @@ fn main() {
         if big && matches!(pid.as_str(), "C13" | "C14" | "C16" | "C17") { continue; }      // no size parameter in these oracles
         match pid.as_str() {
         "C01" => { c01(rng, out); if !big { c01_extreme(rng, out) } }, "C02" => c02(rng, out), "C03" => { c03(rng, out); if !big { c03_empty(out) } }, "C04" => { c04(rng, out); c04_f64(rng, out) },
-        "C05" => { c05(rng, out); c05_f64(rng, out); if !big { c05_ctor(out); c05_assemble(rng, out) } }, "C06" => { c06(rng, out); c06_raw(rng, out) }, "C07" => { c07(rng, out); c07_insert(rng, out); c07_sizes(rng, out) }, "C08" => c08(rng, out),
+        "C05" => { c05(rng, out); c05_f64(rng, out); if !big { c05_ctor(out); c05_assemble(rng, out) } }, "C06" => { c06(rng, out); c06_raw(rng, out) }, "C07" => { c07(rng, out); c07_insert(rng, out); c07_raw(rng, out); c07_sizes(rng, out) }, "C08" => c08(rng, out),
         "C09" => c09(rng, out), "C10" => c10(rng, out), "C11" => c11(rng, out), "C12" => c12(rng, out),
         "C13" => c13(rng, out), "C14" => c14(rng, out), "C15" => c15(rng, out), "C16" => c16(rng, out),
         "C17" => c17(rng, out), "C18" => c18(rng, out), "C19" => { c19(rng, out); c19_file(rng, out) }, "C20" => c20(rng, out),
